@@ -247,9 +247,26 @@ func runInterleave(r *hx.R, n int, w *hx.W, _ []string) error {
 		})
 	}
 
+	// every (query kind, yield point) combination comes up at least once per pass through `combos` (the in-flight yield fixes its own
+	// query kind); the rest of the cases is drawn at random
+	type combo struct{ y, q string }
+	var combos []combo
+	for _, y := range yields[:3] {
+		for _, q := range queryKinds[1:] {
+			combos = append(combos, combo{y, q})
+		}
+	}
+	combos = append(combos, combo{yields[3], "simulate-ethtx"})
+	for i := len(combos) - 1; i > 0; i-- { // shuffled by the run's seed
+		j := r.Pick(i + 1)
+		combos[i], combos[j] = combos[j], combos[i]
+	}
 	for c := 0; c < n; c++ {
 		y := yields[r.Pick(len(yields))]
 		q := queryKinds[1+r.Pick(len(queryKinds)-1)]
+		if c < 2*len(combos) {
+			y, q = combos[c%len(combos)].y, combos[c%len(combos)].q
+		}
 		bankAmt := r.Range(1, 50)
 		qAmt := r.Range(1, 50)
 		payload, _ := ftABI.Pack("bankMsgSend", recipients[0].String(), "unibi", big.NewInt(bankAmt))
